@@ -135,7 +135,7 @@ pub fn alphabet(channels: &[u32], timeout: u64) -> Vec<Inp> {
     a
 }
 
-pub fn explore(out: &mut Out, channels: &[u32], timeout: u64, max_states: usize, strict_reset: bool) {
+pub fn explore(out: &mut Out, channels: &[u32], timeout: u64, max_states: usize, strict_reset: bool, full_transparency: bool) {
     let alpha = alphabet(channels, timeout);
     let mut seen: HashMap<String, usize> = HashMap::new();
     let mut queue: VecDeque<usize> = VecDeque::new();
@@ -165,7 +165,20 @@ pub fn explore(out: &mut Out, channels: &[u32], timeout: u64, max_states: usize,
         vec![Inp::Msg(0xE0 + c0 as u8, 98, 99), Inp::SameAsTemp],
     ];
     let (mut transitions, mut reports, mut polls_reporting) = (0u64, 0u64, 0u64);
+    let mut sweeps = 0u64;
     while let Some(id) = queue.pop_front() {
+        if full_transparency {
+            // C16: in this state, EVERY non-contributing message (each of the 120 other controller numbers, each other
+            // status byte) reports nothing and leaves the scanner equal (real PartialEq) to what it was
+            out.req(&format!("pp settime {}", times[id]));
+            let probe = |out: &mut Out, s: u8, d1: u8, d2: u8| {
+                out.req(&format!("pp copy {} 1", id));
+                out.req(&format!("pp feed 1 raw {} {} {}", s, d1, d2));
+                out.req(&format!("pp same 1 {}", id));
+            };
+            for cnn in 0..128u8 { if !matches!(cnn, 6 | 38 | 96..=101) { probe(out, st0, cnn, if cnn % 2 == 0 { 5 } else { 127 }); sweeps += 1; } }
+            for st in (0x80u8..=0xFF).filter(|s| (s & 0xF0) != 0xB0) { probe(out, st, if st % 2 == 0 { 6 } else { 98 }, 38); sweeps += 1; }
+        }
         for inp in &alpha {
             out.req(&format!("pp settime {}", times[id]));
             out.req(&format!("pp copy {} 0", id));
@@ -205,6 +218,7 @@ pub fn explore(out: &mut Out, channels: &[u32], timeout: u64, max_states: usize,
     // 1 = the state bound was hit before a fixpoint was reached (the exploration is then incomplete; recorded)
     out.stat("exploration_truncated", (seen.len() >= max_states) as u64);
     out.stat("transitions", transitions);
+    out.stat("transparency_probes", sweeps);
     out.stat("transitions_reporting", reports);
     out.stat("polls_reporting", polls_reporting);
     out.stat("evaluations", transitions);
